@@ -25,6 +25,7 @@ var layouts = []string{
 	time.ANSIC,
 	"2006/01/02 15:04:05",
 	"20060102", // digits only: the capture group is typed by its pattern
+	time.RFC3339Nano, // long: layout and value together exceed 64 bytes
 }
 
 var values = []string{
@@ -41,6 +42,10 @@ var values = []string{
 	"2020/03/04 05:06:07",
 	"20200304",
 	"bogus",
+	// long values that differ only in their last characters
+	"2020-03-04T05:06:07.123456789+01:00",
+	"2020-03-04T05:06:07.123456789+05:30",
+	"2020-03-04T05:06:07.123456788+01:00",
 }
 
 var settimes = []int64{0, 1, -1, 1 << 31, -62135596800 - 1, -62135596800 + 1, 1600000000}
@@ -318,5 +323,5 @@ func main() {
 	c.Set("zones", len(zones))
 	c.Set("program", src)
 	c.Assume = []string{"processing time is bracketed by clock readings around the call, never compared with a deadline", "the year used for yearless layouts is read from the clock by both the VM and the reference; a run across New Year's midnight could disagree"}
-	c.Finish("one program with a strptime site per layout (10 layouts), a settime site per n (7 values) and a site without either; all sequences of <=2 (thorough 3) lines over {layout×value (13 values, valid/invalid/ambiguous), settime sites, plain line} × zones {unset, UTC, +05:30, America/New_York} × syslog-current-year on/off; oracle time.Parse/ParseInLocation; plus a 140-line run crossing the memo size. distinct_nontrivial = distinct (zone, option, line sequence)")
+	c.Finish("one program with a strptime site per layout (11 layouts), a settime site per n (7 values) and a site without either; all sequences of <=2 (thorough 3) lines over {layout×value (16 values, valid/invalid/ambiguous), settime sites, plain line} × zones {unset, UTC, +05:30, America/New_York} × syslog-current-year on/off; oracle time.Parse/ParseInLocation; plus a 140-line run crossing the memo size. distinct_nontrivial = distinct (zone, option, line sequence)")
 }
